@@ -8,6 +8,7 @@
 #include <ygm/io/line_parser.hpp>
 #include <ygm/io/csv_parser.hpp>
 #include <ygm/io/ndjson_parser.hpp>
+#include <set>
 #include <ygm/io/multi_output.hpp>
 #include <ygm/io/daily_output.hpp>
 #include <cstdio>
@@ -78,6 +79,18 @@ int main(int argc, char **argv) {
       ygm::io::daily_output<> dout(world, prefix, buflen, append);
       for (auto &[r, sub, text] : ops)
         if (r == me) dout.async_write_line(strtoull(sub.c_str(), 0, 10), text);
+    }
+    if (mode == "multi" && me == 0) {
+      // the object has been destroyed on this rank: the files are read at once, before anything else synchronises the ranks
+      std::set<std::string> subs;
+      for (auto &[r, sub, text] : ops) subs.insert(sub);
+      size_t total = 0;
+      for (auto &sub : subs) {
+        std::ifstream f(prefix + "/" + sub, std::ios::binary);
+        std::string   x;
+        while (std::getline(f, x)) ++total;
+      }
+      line("AFTERDTOR " + std::to_string(total));
     }
     world.barrier();
     line("DONE " + std::to_string(me));
